@@ -101,6 +101,9 @@ def run_case(case):
     except ValueError:
         out["ctor"] = "ValueError"
         return out
+    except Exception as e:  # noqa: BLE001  (reported: any other exception from the constructor is a disagreement)
+        out["ctor"] = "error: " + repr(e)[:200]
+        return out
     axes = axes_of(obj, dim)
     out["axes"] = axes
     out["ctor_calls"] = len(rec.calls)
